@@ -1,6 +1,8 @@
 import LP.Props.C13Count
 import LP.Props.C13Status
 import LP.Props.C13IntersectNF
+import LP.Props.C13PointInt
+import LP.Props.C13Hull
 import LP.Props.C13Obs
 import LP.Props.GenTables
 import LP.Props.C13
@@ -38,3 +40,5 @@ import LP.Props.C13Int
 #print axioms LP.FSet.intersectLoop_all2
 #print axioms LP.FSet.C13_intersect_nfs
 #print axioms LP.FSet.cwi_bounds
+#print axioms LP.FSet.C13_isPointInt_sound
+#print axioms LP.FSet.C13_toInterval
